@@ -23,7 +23,7 @@ RULE = ('(a) scripted histories as C01 with EOF/TIMEOUT markers absent/first/mid
         '(case, call position)')
 ASSUMPTIONS = ['scripted transport for (a); models/expect_ref.py gives "all pending text" and "occurrence present"',
                'real-transport part uses a 1 s bound on a call made after EOF with a 5 s timeout (load margin 5x)']
-REQUIRED = ['marker_outcomes', 'marker_listed', 'marker_unlisted', 'pending_occurrence_checks',
+REQUIRED = ['partial_character_reads', 'marker_outcomes', 'marker_listed', 'marker_unlisted', 'pending_occurrence_checks',
             'calls_after_eof_report_eof', 'real_transport_cases', 'diagnostic_states']
 
 
@@ -124,13 +124,25 @@ def real_case(case, acc):
         r, exc, dt = outcome(c, lambda: call(c, entry, pats, 0))
         acc.count('marker_outcomes')
         judge(v, c, r, exc, TIMEOUT, listed, 1, T(' world'), 'timeout 0, nothing readable')
+        tail = ' worldtail'
+        if enc:
+            # 3b. a read that delivers only part of a multi-byte character is not the end of the stream
+            L.peer_write(b'\xe2\x82')
+            if kind == 'popen':
+                time.sleep(0.05)
+            r, exc, dt = outcome(c, lambda: call(c, entry, pats, 0.15))
+            acc.count('marker_outcomes')
+            acc.count('partial_character_reads')
+            judge(v, c, r, exc, TIMEOUT, listed, 1, T(' world'), 'peer connected, half a character arrived')
+            L.peer_write(b'\xac')
+            tail = ' world\u20actail'
         # 4. EOF
         L.peer_write(b'tail')
         L.peer_close()
         pats = [T('zzz')] + ([TIMEOUT, EOF] if listed else [])
         r, exc, dt = outcome(c, lambda: call(c, entry, pats, 5))
         acc.count('marker_outcomes')
-        judge(v, c, r, exc, EOF, listed, 2, T(' worldtail'), 'peer closed')
+        judge(v, c, r, exc, EOF, listed, 2, T(tail), 'peer closed')
         if c.buffer != T(''):
             v('eof-pending-not-cleared', 'buffer=%r' % (c.buffer,))
         # 5. sticky EOF: two further calls
